@@ -127,7 +127,8 @@ theorem EnginePair.nodupG {nnc n cs gs fC fG sC sG} (h : EnginePair nnc n cs gs 
 
 theorem EnginePair.permG {nnc n cs gs gs' fC fG sC sG} (h : EnginePair nnc n cs gs fC fG sC sG)
     (hp : gs'.Perm gs) (sC' sG' : BitMat)
-    (hsC' : fC = true → SatCorrect (cs.map (toL nnc)) (gs'.map (toL nnc)) sC'.rows) :
+    (hsC' : fC = true →
+      SatCorrect (cs.map (toL nnc)) (gs'.map (toL nnc)) sC'.rows ∧ sC'.ncols = cs.length) :
     EnginePair nnc n cs gs' fC false sC' sG' := by
   have hnd := h.nodupG
   have hnd' : gs'.Nodup := hp.nodup_iff.mpr hnd
